@@ -22,6 +22,7 @@ type TxnSpec struct {
 	Stmts      []dbh.Stmt `json:"stmts"`
 	End        string     `json:"end"`                  // "commit" | "abort" | "open" (left in flight; only as last transactions)
 	Checkpoint bool       `json:"checkpoint,omitempty"` // forced checkpoint after the transaction finished
+	Reopen     string     `json:"reopen,omitempty"`     // after the transaction: "crash" (files closed without flush) or "clean" (Shutdown), then reopen and continue
 }
 
 type History struct {
@@ -44,6 +45,7 @@ type Stats struct {
 	LoserPoints   int // a loser's records are in the durable log or its changes on pages at k
 	TornPoints    int
 	Committed     int
+	Reopens       int
 	Aborted       int
 	EngineAborted int
 	Checkpoints   int
@@ -174,6 +176,37 @@ func Execute(h *History, st *Stats) (*Run, *vf.Failure) {
 			db.Checkpoint()
 			run.Rec.Mark("checkpoint-return")
 			st.Checkpoints++
+		}
+		if spec.Reopen != "" && len(open) == 0 {
+			// the same recorder keeps recording across the restart: the restart's own I/O (recovery page writes,
+			// log truncation, re-seeded records) becomes part of the trace, and so do crash points inside it
+			run.Rec.Mark("stop " + spec.Reopen)
+			if spec.Reopen == "clean" {
+				db.Shutdown()
+			} else {
+				db.Stop()
+			}
+			var ndb *dbh.DB
+			f, hung := vf.WithTimeout(60*time.Second, func() *vf.Failure {
+				run.Rec.Reinstall()
+				ndb = dbh.Open(run.Name, h.KB, true)
+				crashsim.Uninstall()
+				return nil
+			})
+			crashsim.Uninstall()
+			if f != nil {
+				stopped = true
+				if hung {
+					f.Class = "restart-hang"
+				} else {
+					f.Class = "restart-" + f.Class
+				}
+				f.Msg = fmt.Sprintf("reopen (%s) after transaction %d failed: %s", spec.Reopen, ti, f.Msg)
+				return run, f
+			}
+			db = ndb
+			run.Rec.Mark("reopened")
+			st.Reopens++
 		}
 	}
 	run.End = run.Rec.Len()
